@@ -195,10 +195,12 @@ void harness(void)
             VP_ASSERT((r.code == REG_ACCESS_SUCCESS) == expect, "C05.bitop.accepted-iff-result-satisfies-constraint");
             if (r.code == REG_ACCESS_SUCCESS)
                 VP_ASSERT(cur_bits(d, e) == want, "C05.bitop.changes-exactly-the-requested-bits");
+#if !defined(GR_N) || GR_N >= 1
             VP_WITNESS(r.code == REG_ACCESS_SUCCESS && want != old && e->check == REGV_TYPE_MAX,
                        "C05.bitop.accepted-under-max.reach");
             VP_WITNESS(r.code != REG_ACCESS_SUCCESS && expect == false && d->a[ai].has_write,
                        "C05.bitop.refused-by-constraint.reach");
+#endif
         }
         /* only this register's words may change */
         for (unsigned a = 0; a < NAREA; ++a)
